@@ -85,6 +85,7 @@ class Rig:
         self.t += 2.0 ** -7
         self.calls.clear()
         self.probe.clear()
+        self.h.loop.max_iterations = self.h.loop.iteration + 2000  # the rig lives for a whole shard: budget per message
         if noise:
             data = net.refwire.sd_datagram(0xC0 if flag else 0x40, [], [], sid, mid=0x8101)
         else:
@@ -124,6 +125,7 @@ class Rig:
         self.t += 2.0 ** -7
         self.calls.clear()
         self.probe.clear()
+        self.h.loop.max_iterations = self.h.loop.iteration + 2000
         datas = [(net.sd_bytes([], sid, reboot=flag), sender, mc) for sender, mc, flag, sid in msgs]
         if one_datagram:
             sender, mc = msgs[0][0], msgs[0][1]
